@@ -180,7 +180,7 @@ func (s *Sched) point(t *Task, site int32, isS bool, varID int32, write bool) {
 	s.Points++
 	if isS {
 		s.SPoints++
-		if s.cfg.RaceRule {
+		if s.cfg.RaceRule && varID > 0 {
 			s.raceCheck(t, site, varID, write)
 		}
 	}
